@@ -29,9 +29,9 @@ RULE = (
 )
 ASSUMPTIONS = ["str.isalnum() is 'alphanumeric'", "the empty-string delimiter is outside the domain (DESIGN 7.3)"]
 
-HOSTS = ["http://x/", "http://x/a_", "http://x/a/", "http://y#", "http://x/b#", "z", "http://x/a_b/", "urn:x:", "http://x/a_b_", ""]
+HOSTS = ["http://x/", "http://x/a_", "http://x/a/", "http://y#", "http://x/b#", "z", "http://x/a_b/", "urn:x:", "http://x/a_b_", "", " http://x/", "\thttp://x/b#", " http://x/a_", "http://x/ "]
 TAILS = ["1", "2", "3", "a1", "é", "a_1", "a-1", "", "x/1", "1#2", "٣", "b", "A", "1_2", "²"]
-DELIMS = [None, None, ["/"], ["#", "/", "_"], ["_", "/"], ["a_", "/"], ["/", "#"], [":", "/"], ["_"], ["b#", "#", "_"]]
+DELIMS = [None, None, ["/"], ["#", "/", "_"], ["_", "/"], ["a_", "/"], ["/", "#"], [":", "/"], ["_"], ["b#", "#", "_"], ["/ ", "/"], [" ", "#"]]
 
 
 # ---- bounded-exhaustive small world: every set of <= 2 URIs over {x, 1, /, _, #} up to length 4 -----------------------
@@ -39,13 +39,16 @@ import itertools
 
 SMALL_ALPH = "x1/_#"
 SMALL_URIS = ["".join(t) for k in range(0, 5) for t in itertools.product(SMALL_ALPH, repeat=k)]
+N_BASE = len(SMALL_URIS)  # pairs are enumerated over these
+# singles only: every string up to length 4 over the same alphabet plus the blank that contains a blank
+SMALL_URIS += [s for s in ("".join(t) for k in range(1, 5) for t in itertools.product(SMALL_ALPH + " ", repeat=k)) if " " in s]
 SMALL_CHUNK = 700
 SMALL_CONFIGS = [({}, "default"), ({"delimiters": ["_", "/"]}, "_/"), ({"delimiters": ["x/", "#"]}, "multi"), ({"cutoff": 2}, "cutoff2")]
 
 
 def _n_small(tier):
     n = len(SMALL_URIS)
-    return n if tier == "quick" else n + n * (n - 1) // 2
+    return n if tier == "quick" else n + N_BASE * (N_BASE - 1) // 2
 
 
 def small_world_case(ctx, g):
@@ -81,7 +84,7 @@ def EXHAUSTIVE(tier, counters):
     total = _n_small(tier)
     return {
         "small_world_exhaustive": n == total,
-        "explanation": f"{n} of {total} URI sets enumerated: every string over '{SMALL_ALPH}' up to length 4 alone (under 4 delimiter / cutoff configurations)"
+        "explanation": f"{n} of {total} URI sets enumerated: every string over '{SMALL_ALPH}' up to length 4, and every such string that also contains blanks, alone (under 4 delimiter / cutoff configurations)"
                        + (" and every unordered pair of them (configurations in rotation)" if tier == "thorough" else "") + "; random multisets beyond that are sampling",
     }
 
@@ -99,7 +102,7 @@ def run_case(ctx, g, rng):
         uris += rng.sample(uris, k=min(2, len(uris)))
     delims = rng.choice(DELIMS)
     cutoff = rng.choice([None, None, None, 0, 1, 2, 3, 4])
-    meta = rng.choice(["ns", "p", "x_", "ns1", ""])
+    meta = rng.choice(["ns", "p", "x_", "ns1", "", "ns", " ns", "ns "])
     conv = None
     if rng.random() < 0.35:
         recs = [spec.Rec("k", "http://x/a_", (), ("http://x/b#",) if rng.random() < 0.5 else (), None)]
